@@ -95,6 +95,9 @@ class ProgGen:
             ename, variants = r.choice(self.enums)
             v, payload = r.choice(variants)
             scrut = f"{v}({self.int_expr(sc, depth + 1)})" if payload else v
+            ems = [m for (t, m) in self.methods if t == ename]
+            if ems and r.chance(0.5):
+                return f"{scrut}.{r.choice(ems)}()"
             arms = []
             for (vn, pl) in variants:
                 if pl:
@@ -371,6 +374,12 @@ class ProgGen:
                 variants.append((f"C{self.tag}", True))
             defs.append(f"enum {ename} {{ " + ", ".join(f"{v}(Int)" if p else v for v, p in variants) + " }")
             self.enums.append((ename, variants))
+            if r.chance(0.5):
+                m = f"wt{self.tag}"
+                arms = " ".join((f"{v}(w) => (w + {r.randint(0, 5)}) % 1000" if pl else f"{v} => {r.randint(0, 9)}")
+                                for v, pl in variants)
+                defs.append(f"method {m}(this: {ename}): Int {{ match this {{ {arms} }} }}")
+                self.methods.append((ename, m))
         nf = r.randint(1, 3)
         for i in range(nf):
             name = f"f{self.tag}{i}"
